@@ -30,7 +30,7 @@ def _path(ctx, params):
     W = common.world("c15")
     np = W.np
     sfm = W.load("lbfgsb.scalar_function")
-    f, g, fd = UF("f", 1), UF("g", n), UF("fdg", n)
+    f, g, fd, fdw = UF("f", 1), UF("g", n), UF("fdg", n), UF("fdw", 1)
     fcalls, gcalls, fdcalls, requests = [], [], [], []
     in_stencil = [False]
 
@@ -51,7 +51,7 @@ def _path(ctx, params):
         ctx.assume(_b(a <= b), check=False)
     lb, ub = np.array(lbv), np.array(ubv)
     eps = SReal(ctx.real("eps"))
-    rel = SReal(ctx.real("rel_step"))
+    rel = SReal(ctx.real("rel_step")) if params.get("rel", "sym") == "sym" else None
 
     def approx_derivative(fun_w, x0, method="3-point", rel_step=None, abs_step=None, f0=None, bounds=(-INF, INF), **kw):
         x0 = np.asarray(x0)
@@ -69,7 +69,14 @@ def _path(ctx, params):
                     fun_w(np.array(p))
                 finally:
                     in_stencil[0] = False
-        return np.array(list(fd(list(x0.data))))
+        base = list(fd(list(x0.data)))
+        if f0 is not None and method != "cs":
+            # a one-sided quotient depends on the base value it is given: FD(x0) + (f(x0) - f0) w(x0), w > 0
+            w = fdw(list(x0.data))[0]
+            CTX.assume(w.z() > 0, check=False)
+            corr = (f(list(x0.data))[0] - SReal.of(f0)) * w
+            base = [b + corr for b in base]
+        return np.array(base)
     sfm.approx_derivative = approx_derivative
     x0 = np.array([SReal(ctx.real("x0_%d" % i)) for i in range(n)])
     kw = dict(jac=jac if mode == "callable" else (None if mode == "none" else mode), args=(), bounds=(lb, ub), epsilon=eps, finite_diff_rel_step=rel)
@@ -158,7 +165,10 @@ def _path(ctx, params):
                 else:
                     if rec["abs_step"] is not None:
                         bad.append("abs_step given in relative-step mode")
-                    if rec["rel_step"] is None or eqv(rec["rel_step"], rel) is not False:
+                    if rel is None:
+                        if rec["rel_step"] is not None:
+                            bad.append("a rel_step appeared although none was given")
+                    elif rec["rel_step"] is None or eqv(rec["rel_step"], rel) is not False:
                         bad.append("rel_step not passed through")
                 b = rec["bounds"]
                 if not (isinstance(b, tuple) and len(b) == 2 and b[0] is lb and b[1] is ub):
